@@ -17,6 +17,9 @@ import (
 
 	"verifh/engine"
 
+	"github.com/pinealctx/neptune/ulog"
+	"go.uber.org/zap/zapcore"
+
 	"github.com/pinealctx/neptune/syncx/pipe/mux"
 )
 
@@ -35,7 +38,13 @@ var Prop = &engine.Prop{
 		"the value a callback returns is the value the store now holds",
 	},
 	ShardsQuick: 8, ShardsThorough: 32,
-	Setup: func(c *engine.Ctx) { Q = engine.NewQuiescer() },
+	Setup: func(c *engine.Ctx) {
+		// the executors log every shutdown at debug level on stdout: silence the default logger
+		lg := ulog.NewSimpleLogger("error")
+		lg.SetLevel(zapcore.FatalLevel)
+		ulog.SetDefaultLogger(lg)
+		Q = engine.NewQuiescer()
+	},
 	Kinds: []engine.Kind{
 		{Name: "stream", Quick: 6000, Thorough: 480000, Fn: streamCase},
 		{Name: "gate", Quick: 1500, Thorough: 120000, Fn: gateCase},
@@ -225,8 +234,8 @@ type spy struct {
 
 func (s *spy) Peek(k interface{}) (interface{}, bool) { return s.inner.Peek(k) }
 func (s *spy) Get(k interface{}) (interface{}, bool)  { return s.inner.Get(k) }
-func (s *spy) Set(k interface{}, v interface{})        { s.inner.Set(k, v) }
-func (s *spy) Delete(k interface{})                    { s.inner.Delete(k) }
+func (s *spy) Set(k interface{}, v interface{})       { s.inner.Set(k, v) }
+func (s *spy) Delete(k interface{})                   { s.inner.Delete(k) }
 
 type group struct {
 	g       *mux.WorkerGrp
@@ -629,7 +638,18 @@ func gateCase(k *engine.Case) {
 	gop := map[string]int{"update": 2, "upsert": 6, "delete": 3, "load": 0}[gcb]
 	if gcb == "load" {
 		// make sure the key is not cached so that the load callback is reached: delete first
-		call(d, "del", func() any { st.mu.Lock(); g0 := st.gate; st.gate = nil; st.mu.Unlock(); runOp(g, st, 3, key, 0); st.mu.Lock(); st.gate = g0; st.log = nil; st.mu.Unlock(); return nil })
+		call(d, "del", func() any {
+			st.mu.Lock()
+			g0 := st.gate
+			st.gate = nil
+			st.mu.Unlock()
+			runOp(g, st, 3, key, 0)
+			st.mu.Lock()
+			st.gate = g0
+			st.log = nil
+			st.mu.Unlock()
+			return nil
+		})
 		call(d, "reseed", func() any {
 			st.mu.Lock()
 			g0 := st.gate
